@@ -653,6 +653,14 @@ pub mod time {
         }
     }
 
+    /// Wall-clock time: on simulated threads a fixed epoch plus the simulated clock.
+    pub fn system_time_now() -> std::time::SystemTime {
+        match super::hooks().and_then(|h| h.now_nanos()) {
+            Some(n) => std::time::UNIX_EPOCH + Duration::from_secs(1_700_000_000) + Duration::from_nanos(n),
+            None => std::time::SystemTime::now(),
+        }
+    }
+
     impl std::ops::Add<Duration> for Instant {
         type Output = Instant;
         fn add(self, rhs: Duration) -> Instant {
